@@ -26,7 +26,7 @@ POSTCONDITION Summary
 CHECK_DEADLOCK FALSE
 """
 LOSSES = ["ode", "statio", "nonstatio", "sysode", "syspde", "syspdestatio", "mlp"]
-GENS = ["odegen", "statio2d", "statio1d", "nonstatio", "obsgen", "paramgen", "multiobs"]
+GENS = ["odegen", "statio2d", "statio1d", "nonstatio", "obsgen", "paramgen", "multiobs", "paramgen2"]
 q = lambda xs: ", ".join(f'"{x}"' for x in xs)
 
 
